@@ -132,7 +132,8 @@ def impl(op, a):
         params = p._params
         conf = copy.copy(p.pdu_header.pdu_conf)     # a second holder of the decoded byte-field objects
         return ([[ok]] + _fdstate(p) + h5.run_history(a[2:], lambda l: apply_fd_op(p, params, l), lambda: _fdstate(p))
-                + _params_view(params) + _conf_lists(conf))
+                + _params_view(params) + _conf_lists(conf)
+                + _fdstate(FileDataPdu.unpack(bytes(a[0]))))        # the same octets decoded once more
     if op == 1400:
         p, conf, _ = _pdu(a)
         return _fields(p) + _conf_lists(conf)
@@ -741,6 +742,10 @@ def oracle(case, ires, sres):
             flat = ires[2]
             st = {"hd": flat[0:3], "ids": flat[3:9], "flags": flat[9:14], "off": ires[4], "data": ires[5], "meta": ires[6]}
             caller = {"ids": list(st["ids"]), "shared": [True] * 3}
+            if ires[-5:] != ires[2:7]:
+                return ("C07/FileDataPdu.unpack/second-decode-differs", "the same octets decoded again after the first PDU was edited give %s, the first time %s" % (
+                    [x[:16] for x in ires[-5:]], [x[:16] for x in ires[2:7]]))
+            ires = ires[:-5]
             body, tail, cend = ires[7:-5], ires[-5:-2], (ires[-2:], list(st["flags"]))
         if len(body) != 7 * len(ops):
             return ("C07/FileDataPdu.history/shape", "result has %d lines for %d operations" % (len(body), len(ops)))
